@@ -1,49 +1,9 @@
 (* C13 - P_xyz / P_rawxyz raise only the documented errors, for every list of lines. *)
 From Coq Require Import List Bool Arith ZArith Lia.
-From DS Require Import Base.C13_Exn Gen.C13_ExcSpec Model.C13_Common Model.C13_Xyz Proofs.C13_ExnLemmas.
+From DS Require Import Base.C13_Exn Gen.C13_ExcSpec Model.C13_Common Model.C13_Xyz
+                       Proofs.C13_ExnLemmas Proofs.C13_Shared.
 From Coq Require Import Ascii String.
 Import ListNotations.
-
-Lemma reraise_handler_raises : forall A hk k, exists k', @reraise_handler A hk k = Raise k'.
-Proof. intros A [| |] k; simpl; eexists; reflexivity. Qed.
-
-Lemma try_reraise_ok : forall A (m : res A) c hk a,
-  try_catch m c (reraise_handler hk) = Ok a -> m = Ok a.
-Proof.
-  intros A [x | k] c hk a H; simpl in H; [assumption |].
-  destruct (catches c k); [| discriminate].
-  destruct (reraise_handler_raises A hk k) as [k' E]. rewrite E in H. discriminate.
-Qed.
-
-Lemma In_skipn : forall A n (l : list A) a, In a (skipn n l) -> In a l.
-Proof. intros A n l a H. rewrite <- (firstn_skipn n l). apply in_or_app; right; assumption. Qed.
-
-Lemma In_firstn : forall A n (l : list A) a, In a (firstn n l) -> In a l.
-Proof. intros A n l a H. rewrite <- (firstn_skipn n l). apply in_or_app; left; assumption. Qed.
-
-Lemma In_slice : forall A (l : list A) a b x, In x (slice l a b) -> In x l.
-Proof. intros A l a b x H. unfold slice in H. apply In_firstn in H. apply In_skipn in H. assumption. Qed.
-
-Lemma trim_stop_ok : forall fuel lf start stop, stop <= List.length lf ->
-  exists s, trim_stop fuel lf start stop = Ok s /\ s <= stop.
-Proof.
-  induction fuel as [| fuel IH]; intros lf start stop H; simpl.
-  - exists stop; split; [reflexivity | lia].
-  - destruct (Nat.ltb start stop) eqn:E.
-    + apply Nat.ltb_lt in E.
-      destruct (idx_ok _ lf (stop - 1)) as [f Hf]; [lia |]. rewrite Hf; simpl.
-      destruct (is_nil f).
-      * destruct (IH lf start (stop - 1)) as [s [Hs Hle]]; [lia |]. exists s; split; [assumption | lia].
-      * exists stop; split; [reflexivity | lia].
-    + exists stop; split; [reflexivity | lia].
-Qed.
-
-Lemma trim_blank_within : forall isblank fuel lines stop ks, In IndexError ks -> within ks (trim_blank isblank fuel lines stop).
-Proof.
-  induction fuel as [| fuel IH]; intros lines stop ks H; simpl; [exact I |].
-  destruct (Nat.ltb 0 stop); [| exact I].
-  apply within_bind; [apply within_idx; assumption |]. intros l _. destruct (isblank l); [apply IH; assumption | exact I].
-Qed.
 
 Section XYZ_proofs.
   Variable V : Type.
@@ -65,19 +25,6 @@ Section XYZ_proofs.
   Proof.
     intros; unfold xyz_header.
     repeat (first [ wstep | eapply within_weaken_b; [| apply int_kinds]; reflexivity ]).
-  Qed.
-
-  Lemma header_ok_bound : forall lines lf start n s,
-    xyz_header int_of canon_int lines lf start = Ok (n, s) -> s <= List.length lines.
-  Proof.
-    intros lines lf start n s H. unfold xyz_header in H.
-    repeat match type of H with
-    | bind ?m _ = Ok _ => let E := fresh "E" in destruct m eqn:E; simpl in H; [| discriminate]
-    | (if ?b then _ else _) = Ok _ => destruct b eqn:?; try discriminate
-    end.
-    match goal with E : idx lines (start + 1) = Ok _ |- _ => rename E into Eidx end.
-    inversion H; subst. unfold idx in Eidx. destruct (nth_error lines (start + 1)) eqn:E2; [| discriminate].
-    assert (start + 1 < List.length lines) by (apply nth_error_Some; congruence). lia.
   Qed.
 
   Lemma record_within : forall lines start nfields n fields,
@@ -107,7 +54,6 @@ Section XYZ_proofs.
     { eapply within_try; [apply header_within | vm_compute; reflexivity |].
       intros k; vm_compute; tauto. }
     intros [natoms start] Hh. apply try_reraise_ok in Hh. simpl fst; simpl snd.
-    assert (Hb : start <= List.length lines) by (eapply header_ok_bound; eassumption).
     assert (Hl : List.length lf = List.length lines) by (unfold lf; apply map_length).
     destruct (trim_stop_ok (S (List.length lines)) lf start (List.length lines)) as [stop [Hs Hle]]; [lia |].
     rewrite Hs; simpl.
